@@ -118,9 +118,34 @@ class Context:
         return self._progs[config]
 
     def rule(self, rid, title, config="default"):
+        pre = getattr(self, "_premise_prefix", None)
+        if pre:
+            rid = pre + rid.lower()        # a neighbour's whole rule set evaluated as a premise: R17 + N3 -> R17n3
         self.titles = getattr(self, "titles", {})
         self.titles.setdefault(rid, title)
         return Rule(self, rid, title, config)
+
+    def rid(self, rid):
+        """the id a rule of this module has in the current run (prefixed when the module is evaluated as a premise)"""
+        pre = getattr(self, "_premise_prefix", None)
+        return pre + rid.lower() if pre else rid
+
+    def premise(self, prefix):
+        """`with ctx.premise("R17"): other.run_cfg(ctx, p, cfg)` - evaluate another property's rules under this property's
+        ids (prefix + the rule's own id in lower case); what the other module records in ctx.extra is put back afterwards"""
+        ctx = self
+
+        class _P:
+            def __enter__(self_):
+                self_.old = getattr(ctx, "_premise_prefix", None)
+                self_.extra = {k: (dict(v) if isinstance(v, dict) else v) for k, v in ctx.extra.items()}
+                ctx._premise_prefix = prefix
+
+            def __exit__(self_, *a):
+                ctx._premise_prefix = self_.old
+                ctx.extra = self_.extra
+                return False
+        return _P()
 
     def note(self, text):
         self.notes.append(text)
